@@ -92,7 +92,8 @@ def run(chk):
     jobs = []
     for i, c in enumerate(cases):
         jobs.append({"prog": c["prog"], "flow": c["flow"], "provider": "sqlalchemy" if i % 3 == 0 else "dict",
-                     "opts": {"form1": rnd.choice(["plain", "func", "case", "window"]), "form2": "arith"}})
+                     "opts": {"form1": rnd.choice(["plain", "func", "case", "window"]), "form2": "arith",
+                              "paren_source": c["prog"]["tk"] and not c["prog"]["branch2"] and rnd.random() < 0.5}})
     pool = mp.Pool(16)
     try:
         res = pool.map(_run_chunk, c02.chunks(jobs, 96))
